@@ -470,7 +470,7 @@ impl Check for C03Check {
         Some(4096)
     }
     fn rule(&self) -> String {
-        "scenario = one chunk sent by the PWB model (payload length, fill, all header fields from the run seed; lengths 1..=64 exhaustively, then boundary lengths up to 65535, then seeded) plus a family of link faults applied one delivery at a time: every single-bit flip; every burst length 2..=32 at every visited bit offset (large chunks are split into parts, each a scenario); seeded (or, for the 28-byte chunk in thorough, all) pairs and triples of flips biased to length field / CRC words / header+payload straddles; truncation/extension by multiples of 4; CRC-valid sender deviations (unknown device, chip 4..255, flags 2..255, declared length +-1..4 with/without zero padding, non-zero padding). Oracles: I1 fault-free chunk accepted, accessors re-encode to the bytes; I2 1-3 flips or one burst <=32 => rejected; I3 accepted => reference well-formedness predicate (own CRC-32C). A scenario is non-trivial if it delivered the base chunk and fired at least one fault; distinct = distinct event-log hashes (chunk bytes + per-delivery accept/reject trace).".into()
+        "scenario = one chunk sent by the PWB model (payload length, fill, all header fields from the run seed; lengths 1..=64 exhaustively, then boundary lengths up to 65535, then seeded) plus a family of link faults applied one delivery at a time: every single-bit flip; every burst length 2..=32 at every visited bit offset (large chunks are split into parts, each a scenario); seeded (or, for the 28-byte chunk in thorough, all) pairs and triples of flips biased to length field / CRC words / header+payload straddles; truncation/extension by multiples of 4; overwritten bytes and aligned 16/32-bit fields (0, all ones, 1, sign bits, +1, seeded - bursts no longer than the CRC, so rejection is guaranteed), 4-9 flips and datagrams replaced by noise or zeros (no guarantee: if accepted, I3 and I1 apply); CRC-valid sender deviations (unknown device, chip 4..255, flags 2..255, declared length +-1..4 with/without zero padding, non-zero padding). Oracles: I1 fault-free chunk accepted, accessors re-encode to the bytes; I2 1-3 flips or one burst <=32 => rejected; I3 accepted => reference well-formedness predicate (own CRC-32C). A scenario is non-trivial if it delivered the base chunk and fired at least one fault; distinct = distinct event-log hashes (chunk bytes + per-delivery accept/reject trace).".into()
     }
     fn assumptions(&self) -> Vec<String> {
         vec![
@@ -718,6 +718,10 @@ impl Check for C03Check {
                         ByteFault::Burst { len, pattern, .. } => {
                             *len >= 1 && *len <= 32 && pattern & 1 == 1 && (pattern >> (*len - 1)) & 1 == 1
                         }
+                        // an overwritten byte or aligned 16/32-bit field differs from the original within
+                        // 8 / 16 / 32 consecutive bits: a burst no longer than the CRC
+                        ByteFault::SetByte { .. } => true,
+                        ByteFault::SetField { width, .. } => *width == 2 || *width == 4,
                         _ => false,
                     };
                     let sig = match f {
@@ -795,6 +799,42 @@ impl Check for C03Check {
                     region(base.len(), declared, c)
                 );
                 cx.wire(ByteFault::FlipBits(vec![a, b, c]), true, &sig);
+            }
+            // overwritten bytes and fields (boundary values), more than three flips, and a datagram
+            // replaced by noise of the same length
+            for k in 0..(sw.pairs / 8).min(200) {
+                let pos = pick_bit(&mut r) / 8;
+                let val = match k % 5 {
+                    0 => 0u8,
+                    1 => 0xFF,
+                    2 => base[pos].wrapping_add(1),
+                    3 => base[pos] ^ 0x80,
+                    _ => r.below(256) as u8,
+                };
+                cx.wire(ByteFault::SetByte { pos, val }, true, &format!("set_byte@{}", region(base.len(), declared, pos * 8)));
+                let width = if k % 2 == 0 { 2usize } else { 4 };
+                let fpos = (pick_bit(&mut r) / 8) / width * width;
+                let fval = match (k / 2) % 6 {
+                    0 => 0u32,
+                    1 => u32::MAX,
+                    2 => 1,
+                    3 => 0x8000_0000,
+                    4 => 0x0000_8000,
+                    _ => r.next_u32(),
+                };
+                cx.wire(ByteFault::SetField { pos: fpos, width: width as u8, be: k % 3 == 0, val: fval }, true, &format!("set_field@{}", region(base.len(), declared, fpos * 8)));
+                let n = r.usize(4, 9);
+                let mut bits: Vec<usize> = (0..n).map(|_| pick_bit(&mut r)).collect();
+                bits.sort();
+                bits.dedup();
+                if bits.len() >= 4 {
+                    cx.wire(ByteFault::FlipBits(bits), false, "flipN");
+                }
+            }
+            if sw.pairs > 0 {
+                cx.wire(ByteFault::Replace(r.bytes(base.len())), false, "replace");
+                cx.wire(ByteFault::Replace(r.bytes(28)), false, "replace");
+                cx.wire(ByteFault::Replace(vec![0; base.len()]), false, "replace");
             }
             if sw.all_pairs {
                 for a in 0..nbits {
